@@ -40,11 +40,19 @@ def main():
                 print("PATCH FAILED", r.stdout, r.stderr)
                 return 3
         else:
-            rel = sys.argv[2]
-            pairs = sys.argv[3:]
+            regex = sys.argv[2] == "--sub"   # mutate.py PROP --sub relfile regex repl [regex repl ...]: every match is replaced
+            rel = sys.argv[3] if regex else sys.argv[2]
+            pairs = sys.argv[4:] if regex else sys.argv[3:]
             p = os.path.join(d, rel)
             s = open(p).read()
             for old, new in zip(pairs[0::2], pairs[1::2]):
+                if regex:
+                    import re
+                    s, n = re.subn(old, new, s)
+                    if not n:
+                        print(f"regex does not match: {old!r}")
+                        return 3
+                    continue
                 if s.count(old) != 1:
                     print(f"edit does not apply uniquely ({s.count(old)} matches): {old[:60]!r}")
                     return 3
